@@ -626,6 +626,9 @@ func (x *Exec) cutLoop(s *State, ord int, label string, spec *LoopSpec, pos toke
 			top := x.frames[0].fi
 			x.obls = append(x.obls, &Obligation{Name: fmt.Sprintf("%s/loop%d.reach", top.Key, ord), Kind: "vacuity", Func: top.Key,
 				Hyps: append([]*Term(nil), b.assumes...), Goal: nil, Pos: x.pos(pos), Text: "loop invariants and guard satisfiable", fi: top, Props: x.curProps})
+			// ... and whether the loop is reached at all under the function's preconditions (s: the state before the cut)
+			x.obls = append(x.obls, &Obligation{Name: fmt.Sprintf("%s/loop%d.entryreach", top.Key, ord), Kind: "vacuity", Func: top.Key,
+				Hyps: append([]*Term(nil), s.assumes...), Goal: nil, Pos: x.pos(pos), Text: "loop entry reachable", fi: top, Props: x.curProps})
 		}
 		if f.iterStarts == nil {
 			f.iterStarts = map[int]*State{}
